@@ -183,7 +183,7 @@ def spec_to_python(pkg, spec):
         enum_cls = _cls(pkg, ename)
         return enum_cls(val)
     if isinstance(spec, dict) and "$money" in spec:
-        return f"m#{spec['$money']}"
+        return f"m#{spec['$money']}" if spec["$money"] else ""
     if isinstance(spec, dict) and "$dt" in spec:
         import datetime
 
